@@ -957,4 +957,46 @@ theorem boot_vport_attr (cfg : Cfg) (s : Store) (id : String) (vd : VDef) (r : P
   rw [loadFromData_attrs, applyFields_attrs, foldAttr_loadOrder cfg n _ _ nd]
   rfl
 
+/-! ### the first read after a load -/
+
+theorem readXform_congr (cfg : Cfg) (p q : Port) (h : p.attrs = q.attrs) (v : Option PVal) :
+    readXform cfg p v = readXform cfg q v := by
+  simp only [readXform, h]
+
+/-- `firstRead` looks at the driver definition, the attributes and the value only -/
+theorem firstRead_congr (cfg : Cfg) (p q : Port) (hd : p.pdef = q.pdef) (ha : p.attrs = q.attrs)
+    (hv : p.value = q.value) : firstRead cfg p = firstRead cfg q := by
+  unfold firstRead
+  rw [hv]
+  cases q.value with
+  | none => rfl
+  | some v =>
+    simp only [persistedOf_congr p q ha, show enabledOf p = enabledOf q by simp only [enabledOf, boolAttr, ha], hd,
+      loadWrites_congr cfg p q ha hd v]
+    split
+    · split <;> simp_all [readXform_congr cfg p q ha]
+    · rfl
+
+/-- the read transform of `p` undoes its write transform on `v` -/
+def InverseOn (cfg : Cfg) (p : Port) (v : PVal) : Prop :=
+  ∀ w, writeXform cfg p v = some w → readXform cfg p (some w) = some v
+
+theorem firstRead_of_inverse (cfg : Cfg) (p : Port) (v : PVal) (hv : p.value = some v) (hi : InverseOn cfg p v) :
+    firstRead cfg p = some v := by
+  unfold firstRead
+  rw [hv]
+  simp only
+  split
+  · split
+    · rename_i w heq
+      unfold loadWrites at heq
+      split at heq
+      · split at heq
+        · cases heq
+        · simp only [List.cons.injEq, and_true] at heq
+          exact hi w heq
+      · cases heq
+    · rfl
+  · rfl
+
 end QtVerif.Config
